@@ -344,6 +344,12 @@ impl<'a, 'b> G<'a, 'b> {
                 let mut parts = vec![];
                 let mut waiting_used = false;
                 for _ in 0..n {
+                    // a multi written inside a multi (the parser flattens it)
+                    if self.t.chance(1, 6) {
+                        let (k1, k2) = (self.out_key(), self.out_key());
+                        parts.push(format!("(multi {k1} {k2})"));
+                        continue;
+                    }
                     let w = ctx.waiting_ok && !waiting_used;
                     let a = self.action(Ctx { in_multi: true, waiting_ok: w, ..c });
                     if a.starts_with("(tap-hold") || a.starts_with("(tap-dance ") || a.starts_with("(chord ") {
